@@ -205,7 +205,7 @@ func RLastCap(c *core.Ctx) {
 }
 
 func RRuneWidth(c *core.Ctx) {
-	c.Rule("R-RUNEWIDTH", "every function that walks a string rune by rune and takes a byte width from utf8.RuneLen corrects it, under `ch == utf8.RuneError`, by re-decoding at that position (utf8.DecodeRuneInString): RuneLen(RuneError) is 3 but an invalid byte occupies 1, while a genuine U+FFFD occupies 3 — only re-decoding tells them apart (sibling agreement of the byte mappers)", 2)
+	c.Rule("R-RUNEWIDTH", "every function (or closure) that works on a string and takes a byte width from utf8.RuneLen of a non-constant rune corrects it, under `ch == utf8.RuneError`, by re-decoding at that position (utf8.DecodeRuneInString): RuneLen(RuneError) is 3 but an invalid byte occupies 1, while a genuine U+FFFD occupies 3 — only re-decoding tells them apart (sibling agreement of the byte mappers)", 2)
 	p := c.P
 	n := 0
 	for _, fn := range p.ModuleFuncs() {
@@ -220,13 +220,23 @@ func RRuneWidth(c *core.Ctx) {
 				if !ok || call.Call.StaticCallee() == nil || call.Call.StaticCallee().String() != "unicode/utf8.RuneLen" {
 					continue
 				}
-				// argument is the value of a range-over-string
-				ex, ok := call.Call.Args[0].(*ssa.Extract)
-				if !ok {
+				// argument is the value of a range-over-string, or the function (closure) works on a string:
+				// then the width is going to be used as a distance in that string's bytes
+				if _, isConst := call.Call.Args[0].(*ssa.Const); isConst {
 					continue
 				}
-				nx, ok := ex.Tuple.(*ssa.Next)
-				if !ok || !nx.IsString {
+				onString := false
+				if ex, ok := call.Call.Args[0].(*ssa.Extract); ok {
+					if nx, ok := ex.Tuple.(*ssa.Next); ok && nx.IsString {
+						onString = true
+					}
+				}
+				for _, prm := range fn.Params {
+					if bt, ok := prm.Type().Underlying().(*types.Basic); ok && bt.Info()&types.IsString != 0 {
+						onString = true
+					}
+				}
+				if !onString {
 					continue
 				}
 				n++
